@@ -315,6 +315,19 @@ func checkC17(p *Prog, r *Report) {
 	}
 	r.Floor("R5", "order edges", len(lo.Edges), 3)
 	r.Stat("functions analysed", len(ls.fns))
+	// R7: snapshots are read without any lock (replies being encoded, application code), so a write in place
+	// into data reachable from a snapshot is a data race whatever lock the writer holds
+	r.Rule("R7", "no function writes in place into a list reachable from stored function data or from a snapshot handed out (the ownership rule C11-O3): such data is read without locks by whoever holds the snapshot")
+	own := BuildOwnership(p, "model", "spine", "util")
+	osites := ownedWriteKeys(p, own.StoreOwnedWrites(""))
+	for _, k := range sortedKeys(osites) {
+		w := osites[k]
+		r.Fail("R7", k, p.InstrPos(w.Ins), fmt.Sprintf("elements of a list shared with snapshots (%s) are written in place via %s: races with any unlocked reader of an earlier snapshot", w.Root, w.How))
+	}
+	if len(osites) == 0 {
+		r.Pass("R7", "repository", "", "no in-place write to shared elements")
+	}
+	r.Stat("R7.element-write sites examined", len(own.Sites))
 	r.Assumes("calls through ShipConnectionDataWriterInterface and application callbacks are external and do not call back synchronously",
 		"closures passed to go-linq, sort and slices run synchronously under the caller's locks; go statements and time.AfterFunc start a new context without locks",
 		"slices handed out by locking getters are not modified in place (lists are rebuilt, see C11)")
